@@ -18,4 +18,16 @@ export GOFLAGS=-mod=mod GOPROXY=off
 (cd "$W/repo" && go build ./... ) || { echo "MUTANT DOES NOT BUILD"; exit 2; }
 (cd "$W/harness" && go build -tags verif -o "$W/sstcheck" ./cmd/sstcheck)
 timeout 900 "$W/sstcheck" "$STREAM" --drv /verif/lean/.lake/build/bin/sstdrv --out "$W/res.json" "$@" || echo "stream exit=$?"
-python3 /verif/tools/showres.py "$W/res.json" 3 4 2>/dev/null | cut -c1-600
+python3 - "$W/res.json" <<'PY'
+import json,sys
+try:
+    d=json.load(open(sys.argv[1]))
+except Exception as e:
+    print("NO RESULT FILE", e); sys.exit(0)
+print({k:d[k] for k in ['cases','evaluations','nontrivial','wall_s']})
+print("SUMMARY", {k:v for k,v in d['stats'].items() if k.startswith('violation') or k=='disagreements'})
+for x in (d.get('disagreements') or [])[:2]:
+    print('DIS',x['what'][:120],'| model=',x['model'][:150],'| impl=',x['impl'][:150],'|',x['case'][:200])
+for v in (d.get('violations') or [])[:3]:
+    print('VIO',v['property'],v['sig'],v['detail'][:250],'|',v['case'][:150])
+PY
